@@ -407,6 +407,22 @@ Definition gmrf_cert_v (fixed : bool) (order : nat) (b : bc_t) (twod : bool) (n 
   | None => false
   end.
 
+(* GMRF with dim > cuqi.config.MAX_DIM_INV and periodic / neumann boundary conditions: "approximate" log-determinant
+   2 sum ln diag chol(P + delta I) = ln det(P + delta I) with delta = sqrt(machine eps) = 2^-26 -- it contains ln delta once per
+   null direction of P.  After fixes/C04_gmrf_large_logdet.diff that contribution is removed (fixed = true). *)
+Definition gmrf_delta : Q := 1 # (2 ^ 26).
+Definition gmrf_large_detarg (fixed : bool) (nullity : nat) (P : list (list Q)) : Q :=
+  let d := qdet (qmadd P (qscale gmrf_delta (qident (length P)))) in
+  if fixed then d / qpow gmrf_delta nullity else d.
+Definition gmrf_large_cert (fixed : bool) (order : nat) (b : bc_t) (twod : bool) (n : nat) (loc x dd : list Q)
+                           (rank_obs : nat) (detarg : Q) : bool :=
+  let dim := length x in
+  mrf_cert order b twod n loc x dd && Nat.eqb (dim - gmrf_nullity order b twod) rank_obs &&
+  match diff_op order b twod n with
+  | Some D => Qeq_bool (gmrf_large_detarg fixed (gmrf_nullity order b twod) (prec_of dim D)) detarg
+  | None => false
+  end.
+
 (* ---------- Gaussian.compute_cov: the covariance matrix of the distribution the logpdf denotes ---------- *)
 (* S is (certified to be) that covariance: cov = M;  prec = M: M S = I;  sqrtcov = M: S = M M^T (the code's reading);
    sqrtprec = M: (M^T M) S = I  (the precision of the quadratic form |M d|^2) *)
